@@ -51,6 +51,7 @@ TOL_MPD = 1e-6
 TOL_COL = 1e-7
 SLACK = 1e-12
 KNOWN_MPC = "MPC:constant-base-vector"
+PAIR_SCALES = [(1e-6 * np.exp(0.7j), 1e-6), (1e6, 1e-6 * np.exp(2.1j)), (1e-6, 1e-3 * np.exp(-2.9j)), (1e6 * np.exp(2.1j), 1e6)]
 
 
 # ---------------------------------------------------------------------------------------------
@@ -223,6 +224,25 @@ def judge_vector(t, seed, fam, spec, vid=None):
                 t.validated += 1
                 if not (np.isfinite(a) and abs(a - 1) <= TOL_INV):
                     viol("MAC", "collinear-value", f"MAC(c*v, v) = {a!r} for real v = {base.tolist()[:6]}", extra)
+        # MAC is invariant under scaling of EITHER argument: MAC(p, p) = 1 and MAC(p, s' phi0) = MAC(p, phi0) for the
+        # smallest and largest scale of the catalogue applied to the second argument
+        for lab, second in (("self", phi.copy()), ("second-arg-small", SCALES[1] * phi0), ("second-arg-large", SCALES[-2] * phi0)):
+            t.evaluations += 1
+            try:
+                r2 = scalar(gen.MAC(phi.copy(), second))
+                r2 = None if r2 is None else float(np.real(r2))
+            except Exception as e:
+                viol("MAC", f"raises-{type(e).__name__}", f"gen.MAC raised {type(e).__name__}: {e}", extra)
+                continue
+            want2 = 1.0 if lab == "self" else vals.get("MAC")
+            if want2 is None:
+                continue
+            t.validated += 1
+            if r2 is None or not np.isfinite(r2) or abs(r2 - want2) > TOL_INV:
+                viol("MAC", f"invariance-{lab}", f"MAC(p, q) = {r2!r}, expected {want2!r}: p = scale#{si}{' normalised' if normed else ''} of "
+                     f"{phi0.tolist()[:6]}, q = {lab}", extra)
+            else:
+                t.err("invariance:MAC-both-args", abs(r2 - want2))
         # invariance against the untouched vector
         if si == -1:
             ref = dict(vals)
@@ -301,6 +321,18 @@ def judge_macsets(t, alpha, n, ix, ia_list, pid_base=None):
             t.violation(f"MAC:raises-{type(e).__name__}:sets", f"gen.MAC raised {type(e).__name__}: {e}", case)
             continue
         ref = np.array([[mac_ref(X[:, i], A[:, j]) for j in range(2)] for i in range(2)])
+        # both sets scaled (per shape) by catalogue factors: the matrix must not change
+        for (s1, s2) in PAIR_SCALES:
+            t.evaluations += 1
+            try:
+                Ms = np.asarray(gen.MAC(X * np.array([s1, np.conj(s1)]), A * np.array([s2, -s2])))
+            except Exception as e:
+                t.violation(f"MAC:raises-{type(e).__name__}:sets", f"gen.MAC raised {type(e).__name__}: {e}", case)
+                continue
+            t.validated += 1
+            if Ms.shape != ref.shape or not np.all(np.isfinite(Ms)) or float(np.max(np.abs(Ms - ref))) > TOL_INV:
+                t.violation("MAC:invariance:sets-both-scaled", f"MAC of the sets scaled by {s1:.3g} and {s2:.3g} = {Ms.tolist()}, unscaled definition {ref.tolist()} "
+                            f"for X = {X.T.tolist()}, A = {A.T.tolist()}", case)
         ref3 = np.c_[ref, [[mac_ref(X[:, i], X[:, 0])] for i in range(2)]]
         ok = True
         for nm, got, want in (("XA", M, ref), ("AX", Mt, ref.T), ("1D-vs-set", M1, ref[:1]), ("2x3", M3, ref3)):
